@@ -104,6 +104,8 @@ def scalar_cmp(op, a, b):
         if not is_sym(a) and not is_sym(b):
             return (a is b) if op == "Is" else (a is not b)
         raise Unsupported("identity test on symbolic values")
+    if (a is None) != (b is None) and op in ("Eq", "NotEq"):
+        return op == "NotEq"                      # None equals only None
     if isinstance(a, str) and len(a) == 1 and (is_sym(b) or isinstance(b, int)):
         a = ord(a)
     if isinstance(b, str) and len(b) == 1 and (is_sym(a) or isinstance(a, int)):
